@@ -722,6 +722,51 @@ Proof.
     apply no_underflow_ge1; rewrite Rabs_pos_eq; lra.
 Qed.
 
+(* ---- the dense formulation: fl(A x) = (A + dA) x, |dA| <= gam |A| componentwise ----
+   sp_rentry s i j = the (i,j) entry the structure denotes over the reals (sum of the stored values of row i that sit in
+   column j), sp_rabs s i j = the sum of their absolute values; the two agree in absolute value when no position of the
+   row is stored twice (sp_rabs_nodup). *)
+From OV Require Import Proofs.RoundSparseDense.
+
+Theorem sp_mul_dense_backward_error : forall (u : R), (0 <= u < 1)%R ->
+  forall (fadd fsub fmul fdiv : R -> R -> R),
+  (forall x y : R, exists d : R, (Rabs d <= u)%R /\ fadd x y = ((x + y) * (1 + d))%R) ->
+  (forall x y : R, exists d : R, (Rabs d <= u)%R /\ fmul x y = (x * y * (1 + d))%R) ->
+  (forall a b : R, fadd 0%R (fmul a b) = fmul a b) ->
+  forall (s : sparse (ARm fadd fsub fmul fdiv)) (x y : list R),
+  wfS s -> sp_mul s x = Ok y ->
+  length y = sp_rows s /\
+  exists dA : nat -> nat -> R,
+    forall i, (i < sp_rows s)%nat -> (INR (length (row_entries s i)) * u < 1)%R ->
+      (forall j, (j < sp_cols s)%nat ->
+         (Rabs (dA i j) <= gam u (length (row_entries s i)) * sp_rabs fadd fsub fmul fdiv s i j)%R) /\
+      nth i y 0%R = Rsum (sp_cols s) (fun j => ((sp_rentry fadd fsub fmul fdiv s i j + dA i j) * nth j x 0)%R).
+Proof. intros u Hu fadd fsub fmul fdiv Ha Hm H0 s x y. exact (sp_mul_dense_backward_error_lemma u Hu fadd fsub fmul fdiv Ha Hm H0 s x y). Qed.
+Check sp_mul_dense_backward_error : forall (u : R), (0 <= u < 1)%R ->
+  forall (fadd fsub fmul fdiv : R -> R -> R),
+  (forall x y : R, exists d : R, (Rabs d <= u)%R /\ fadd x y = ((x + y) * (1 + d))%R) ->
+  (forall x y : R, exists d : R, (Rabs d <= u)%R /\ fmul x y = (x * y * (1 + d))%R) ->
+  (forall a b : R, fadd 0%R (fmul a b) = fmul a b) ->
+  forall (s : sparse (ARm fadd fsub fmul fdiv)) (x y : list R),
+  wfS s -> sp_mul s x = Ok y ->
+  length y = sp_rows s /\
+  exists dA : nat -> nat -> R,
+    forall i, (i < sp_rows s)%nat -> (INR (length (row_entries s i)) * u < 1)%R ->
+      (forall j, (j < sp_cols s)%nat ->
+         (Rabs (dA i j) <= gam u (length (row_entries s i)) * sp_rabs fadd fsub fmul fdiv s i j)%R) /\
+      nth i y 0%R = Rsum (sp_cols s) (fun j => ((sp_rentry fadd fsub fmul fdiv s i j + dA i j) * nth j x 0)%R).
+Print Assumptions sp_mul_dense_backward_error.
+Example sp_mul_dense_backward_error_nonvacuous :   (* the instance of sp_mul_backward_error_nonvacuous; its rows store no position twice *)
+  (0 <= ux < 1)%R /\ wfS ex_sp /\ (exists y, sp_mul ex_sp [5%R; 6%R] = Ok y) /\
+  (forall i, (i < sp_rows ex_sp)%nat -> (INR (length (row_entries ex_sp i)) * ux < 1)%R) /\
+  (forall i, (i < sp_rows ex_sp)%nat -> row_nodup xadd xsub xmul xdiv ex_sp i).
+Proof.
+  split; [exact ux_range|]. split; [exact ex_sp_wf|]. split; [eexists; reflexivity|]. split; [exact ex_sp_rows|].
+  intros [|[|i]] Hi; cbn in Hi; try lia; intros t t' Ht Ht'; cbn in Ht, Ht'.
+  - assert (t = 0%nat) by lia. assert (t' = 0%nat) by lia. congruence.
+  - destruct t as [|[|t]], t' as [|[|t']]; try lia; cbn; intros E; try reflexivity; discriminate.
+Qed.
+
 (* ---------- Props/pending/C11_round.v.txt ---------- *)
 (* ======================================================================================================
    C11 (polynomial ring and calculus laws), rounding half -- package round.  Append to Props/C11.v.
@@ -1000,4 +1045,42 @@ Print Assumptions norm_1_relative_error.
 Example norm_1_relative_error_nonvacuous :
   (0 <= ux < 1)%R /\ (INR (length [1%R; (-2)%R; 3%R]) * ux < 1)%R.
 Proof. split; [exact ux_range|cbn [length INR]; pose proof ux_small; lra]. Qed.
+
+(* ---- norm_2 "to rounding accuracy": standard model extended by a rounded square root; relative error gam (n+1) ---- *)
+From OV Require Import Proofs.RoundNorm2.
+
+Theorem norm_2_relative_error : forall (u : R), (0 <= u < 1)%R ->
+  forall (fadd fsub fmul fdiv : R -> R -> R) (fsqrt : R -> R),
+  (forall x y : R, exists d : R, (Rabs d <= u)%R /\ fadd x y = ((x + y) * (1 + d))%R) ->
+  (forall x y : R, exists d : R, (Rabs d <= u)%R /\ fmul x y = (x * y * (1 + d))%R) ->
+  (forall a b : R, fadd 0%R (fmul a b) = fmul a b) ->
+  (forall x : R, (0 <= x)%R -> exists d : R, (Rabs d <= u)%R /\ fsqrt x = (R_sqrt.sqrt x * (1 + d))%R) ->
+  forall (v : list R), (INR (length v + 1) * u < 1)%R ->
+  exists th : R, (Rabs th <= gam u (length v + 1))%R /\
+    (norm_2 (F := SARm fadd fsub fmul fdiv fsqrt) Rabs v : R)
+    = (R_sqrt.sqrt (Rsum (length v) (fun k => nth k v 0 * nth k v 0)) * (1 + th))%R.
+Proof. intros u Hu fadd fsub fmul fdiv fsqrt Ha Hm H0 Hs v. exact (norm_2_relative_error_lemma u Hu fadd fsub fmul fdiv fsqrt Ha Hm H0 Hs v). Qed.
+Check norm_2_relative_error : forall (u : R), (0 <= u < 1)%R ->
+  forall (fadd fsub fmul fdiv : R -> R -> R) (fsqrt : R -> R),
+  (forall x y : R, exists d : R, (Rabs d <= u)%R /\ fadd x y = ((x + y) * (1 + d))%R) ->
+  (forall x y : R, exists d : R, (Rabs d <= u)%R /\ fmul x y = (x * y * (1 + d))%R) ->
+  (forall a b : R, fadd 0%R (fmul a b) = fmul a b) ->
+  (forall x : R, (0 <= x)%R -> exists d : R, (Rabs d <= u)%R /\ fsqrt x = (R_sqrt.sqrt x * (1 + d))%R) ->
+  forall (v : list R), (INR (length v + 1) * u < 1)%R ->
+  exists th : R, (Rabs th <= gam u (length v + 1))%R /\
+    (norm_2 (F := SARm fadd fsub fmul fdiv fsqrt) Rabs v : R)
+    = (R_sqrt.sqrt (Rsum (length v) (fun k => nth k v 0 * nth k v 0)) * (1 + th))%R.
+Print Assumptions norm_2_relative_error.
+(* the hypotheses are met by 53-bit round-to-nearest-even after every operation, the square root included *)
+Example norm_2_relative_error_nonvacuous :
+  (0 <= ux < 1)%R /\
+  (forall x y : R, exists d : R, (Rabs d <= ux)%R /\ xadd x y = ((x + y) * (1 + d))%R) /\
+  (forall x y : R, exists d : R, (Rabs d <= ux)%R /\ xmul x y = (x * y * (1 + d))%R) /\
+  (forall a b : R, xadd 0%R (xmul a b) = xmul a b) /\
+  (forall x : R, (0 <= x)%R -> exists d : R, (Rabs d <= ux)%R /\ rndx (R_sqrt.sqrt x) = (R_sqrt.sqrt x * (1 + d))%R) /\
+  (INR (length [3%R; (-4)%R] + 1) * ux < 1)%R.
+Proof.
+  split; [exact ux_range|]. split; [exact xadd_ok|]. split; [exact xmul_ok|]. split; [exact xadd_0_mul|].
+  split; [intros x _; apply rndx_rel|cbn [length Nat.add INR]; pose proof ux_small; lra].
+Qed.
 
